@@ -33,4 +33,16 @@ formula and the slicer's buffer both read the pixel size through this property -
 theorem tie_area_resolution (g : Grid) : Gen.area_resolution g.dx g.dy = (g.dx, g.dy) := by
   simp [Gen.area_resolution]
 
+/-- `_generate_1d_proj_vectors` (the `arange` calls read elementwise as the column / row index; the call in
+`AreaDefinition._get_proj_vectors`, which hands it the pixel sizes and `pixel_upper_left`, is required verbatim): element `c` of the
+x vector is the model's `projX c`, element `r` of the y vector is `projY r` — the same affine map as
+`get_projection_coordinates_from_array_coordinates`, so the two accessors cannot drift apart -/
+theorem tie_proj_vectors (g : Grid) (c r : Rat) :
+    Gen.proj_vectors1d c r (g.dx, g.dy) (g.uplx, g.uply) = (g.projX c, g.projY r) := by
+  simp [Gen.proj_vectors1d, Grid.projX, Grid.projY]
+
+theorem code_vectors_agree_with_conversion (g : Grid) (c r : Rat) :
+    Gen.proj_vectors1d c r (g.dx, g.dy) (g.uplx, g.uply) = Gen.proj_from_array c r g.dx g.dy (g.uplx, g.uply) := by
+  rw [tie_proj_vectors, tie_proj_from_array]
+
 end PyresampleModel.Tie
